@@ -91,8 +91,29 @@ func c07CheckTable(t codon.Table, id int, pat string, W sparse, Elig map[string]
 		}
 	}
 	// unencodable residues must be rejected with an error
-	for _, aa := range append(dead, "J", "k", "@") {
-		_, errs := safeOptimize("M"[:0]+aa, t)
+	probe := append(dead, "J", "k", "@")
+	if _, has := cs.Elig["*"]; !has {
+		probe = append(probe, "*") // a genetic code without a stop signal among its letters (27, 28, 31)
+	}
+	// an encodable residue to put around the unencodable one (a protein is rejected as a whole)
+	enc := ""
+	for aa, raw := range cs.Elig {
+		var el []string
+		_ = json.Unmarshal(raw, &el)
+		if len(el) > 0 && aa != "*" && (enc == "" || aa < enc) {
+			enc = aa
+		}
+	}
+	var probes [][2]string
+	for _, aa := range probe {
+		probes = append(probes, [2]string{aa, aa})
+		if enc != "" {
+			probes = append(probes, [2]string{aa, enc + enc + aa}, [2]string{aa, aa + enc}, [2]string{aa, enc + aa + enc + enc})
+		}
+	}
+	for _, pr := range probes {
+		aa := pr[0]
+		_, errs := safeOptimize(pr[1], t)
 		inTable := false
 		for _, d := range dead {
 			if d == aa {
@@ -102,9 +123,9 @@ func c07CheckTable(t codon.Table, id int, pat string, W sparse, Elig map[string]
 		switch {
 		case strings.HasPrefix(errs, "error"):
 		case strings.HasPrefix(errs, "panic"):
-			return dev("C07-unencodable-residue-panics", "table %d/%s: Optimize(%q) panics: %s (in table: %v)", cs.Id, cs.Pat, aa, errs, inTable)
+			return dev("C07-unencodable-residue-panics", "table %d/%s: Optimize(%q) panics: %s (in table: %v)", cs.Id, cs.Pat, pr[1], errs, inTable)
 		default:
-			return bad("table %d/%s: Optimize(%q) with an unencodable residue returned DNA", cs.Id, cs.Pat, aa)
+			return bad("table %d/%s: Optimize(%q) with the unencodable residue %q returned DNA", cs.Id, cs.Pat, pr[1], aa)
 		}
 	}
 	return ok(true)
